@@ -47,6 +47,9 @@ def short_extra(rng, rec):
     r = rng.random()
     page = rng.choice([gen.num(rng), "xii", "___", "iv", gen.num(rng)])
     tail = rng.choice([" because", ".", ", 7.", " (noting x).", " and", "; see", " n.3", "-" + gen.num(rng) + ".", ")"])
+    if r < 0.25:
+        # short form of ANY pattern of the database (pages with commas, periods, letters, ...)
+        return f"{gen.name(rng)}, {gen.member(rng, short=True)}{tail}"
     if r < 0.5:
         return f"{gen.name(rng)}, {gen.num(rng)} {gen.rep(rng)} at {page}{tail}"
     if r < 0.7:
